@@ -11,7 +11,8 @@
      (ii)  a poll job is queued on the object,
      (iii) a poll job is running and its OWN PipeWaker is still live (so the Pending poll_next that ends it leaves
            a live waker with the input), or it has not yet created its waker, or it is about to clear poll_fn,
-     (iv)  no poll job is running, and the waker registered with the input is a live PipeWaker, and the input had
+     (iv)  no poll job is in its body (none running, or it has returned and only waits to be finished), the waker
+           registered with the input is a live PipeWaker, and the input had
            nothing to report since it was registered (no item available, not ended).
    (iv) is exactly the state "the last job saw Pending"; any availability event in that state TAKES the live waker and
    puts a wake in flight = (i); the wake takes the context = still (i); it enqueues = (ii); the job starts = (iii).
@@ -19,7 +20,7 @@
    the new job cannot start before the running one ends (exclusivity), so it will poll the input again afterwards.
    In a quiescent state (i)-(iii) are false, so (iv) holds: nothing available, not ended - this is theorem 4. *)
 From stdpp Require Import list numbers option.
-From PipeIn Require Import Model Inv Thm Term.
+From PipeIn Require Import Model Inv Thm Term OneShot.
 
 (* 1. order, exactly once: the Process events are, in order, exactly the items taken from the input so far
       (the item in the hands of the running job excepted); what is left is still in the input, in order. *)
@@ -107,6 +108,17 @@ Theorem C11_eventually_complete :
     (exists tr s', Forall (fun a => is_env a = false) tr /\ run s tr = Some s' /\ quiescent s' /\ length tr <= measure s).
 Proof. exact eventually_complete. Qed.
 
+(* the mechanism "the waker is one-shot": contexts only move Fresh -> Live -> Taken, and every scheduled poll job
+   (wctx has one entry per poll job ever queued) beyond the initial one is paid for by one consumed waker *)
+Theorem C11_one_shot :
+  forall items s, reachable items s -> length s.(wctx) + npend s.(wakes) <= 1 + ntaken s.(wctx).
+Proof. exact one_shot. Qed.
+
+Theorem C11_waker_monotone :
+  forall items s a s', reachable items s -> step s a = Some s' ->
+    forall k x, s.(wctx) !! k = Some x -> exists y, s'.(wctx) !! k = Some y /\ wk_rank x <= wk_rank y.
+Proof. exact waker_monotone. Qed.
+
 (* bookkeeping *)
 Theorem C11_labels_defined_iff_enabled : forall s a, step_label s a = None <-> step s a = None.
 Proof. exact step_label_enabled. Qed.
@@ -127,5 +139,7 @@ Print Assumptions C11_no_process_after_gone.
 Print Assumptions C11_pipe_side_terminates.
 Print Assumptions C11_reaches_quiescent.
 Print Assumptions C11_eventually_complete.
+Print Assumptions C11_one_shot.
+Print Assumptions C11_waker_monotone.
 Print Assumptions C11_labels_defined_iff_enabled.
 Print Assumptions C11_all_done_quiescent.
